@@ -2,6 +2,7 @@
 
 use anyhow::{Context, Result};
 use clap::{Subcommand, ValueEnum};
+use std::collections::HashSet;
 use std::fs;
 use std::path::{Component, Path, PathBuf};
 use wow_mpq::{
@@ -723,6 +724,29 @@ fn safe_output_path(output_dir: &str, mpq_name: &str) -> Result<PathBuf> {
     Ok(Path::new(output_dir).join(relative))
 }
 
+/// Output path for an archive file name when the directory structure is not
+/// preserved: `output_dir` plus the base name. Archive members from different
+/// directories can share a base name; `written` holds the paths already used
+/// in this run so that a second member is rejected instead of overwriting the first.
+fn flat_output_path(
+    output_dir: &str,
+    mpq_name: &str,
+    written: &mut HashSet<PathBuf>,
+) -> Result<PathBuf> {
+    let system_path = mpq_path_to_system(mpq_name);
+    let filename = Path::new(&system_path).file_name().unwrap_or_default();
+    let path = Path::new(output_dir).join(filename);
+
+    if !written.insert(path.clone()) {
+        anyhow::bail!(
+            "{} was already written for another archive file of the same name (use --preserve-paths)",
+            path.display()
+        );
+    }
+
+    Ok(path)
+}
+
 fn extract_files_with_options(options: ExtractOptions) -> Result<()> {
     let ExtractOptions {
         archive_path,
@@ -835,6 +859,7 @@ fn extract_files_with_options(options: ExtractOptions) -> Result<()> {
         // Write extracted files to disk
         let mut success_count = 0;
         let mut error_count = 0;
+        let mut written_paths = HashSet::new();
 
         for (file, data_result) in results {
             pb.set_message(format!("Writing: {file}"));
@@ -842,19 +867,18 @@ fn extract_files_with_options(options: ExtractOptions) -> Result<()> {
             match data_result {
                 Ok(data) => {
                     let output_path = if preserve_paths {
-                        match safe_output_path(&output_dir, &file) {
-                            Ok(path) => path,
-                            Err(e) => {
-                                log::warn!("Skipping {file}: {e}");
-                                error_count += 1;
-                                pb.inc(1);
-                                continue;
-                            }
-                        }
+                        safe_output_path(&output_dir, &file)
                     } else {
-                        let system_path = mpq_path_to_system(&file);
-                        let filename = Path::new(&system_path).file_name().unwrap_or_default();
-                        Path::new(&output_dir).join(filename)
+                        flat_output_path(&output_dir, &file, &mut written_paths)
+                    };
+                    let output_path = match output_path {
+                        Ok(path) => path,
+                        Err(e) => {
+                            log::warn!("Skipping {file}: {e}");
+                            error_count += 1;
+                            pb.inc(1);
+                            continue;
+                        }
                     };
 
                     if let Some(parent) = output_path.parent() {
@@ -920,6 +944,7 @@ fn extract_files_with_options(options: ExtractOptions) -> Result<()> {
 
         let mut success_count = 0;
         let mut error_count = 0;
+        let mut written_paths = HashSet::new();
 
         for file in files_to_extract.iter() {
             pb.set_message(format!("Extracting: {file}"));
@@ -927,20 +952,18 @@ fn extract_files_with_options(options: ExtractOptions) -> Result<()> {
             match chain.read_file(file) {
                 Ok(data) => {
                     let output_path = if preserve_paths {
-                        match safe_output_path(&output_dir, file) {
-                            Ok(path) => path,
-                            Err(e) => {
-                                log::warn!("Skipping {file}: {e}");
-                                error_count += 1;
-                                pb.inc(1);
-                                continue;
-                            }
-                        }
+                        safe_output_path(&output_dir, file)
                     } else {
-                        // Convert MPQ path to system path, then extract just the filename
-                        let system_path = mpq_path_to_system(file);
-                        let filename = Path::new(&system_path).file_name().unwrap_or_default();
-                        Path::new(&output_dir).join(filename)
+                        flat_output_path(&output_dir, file, &mut written_paths)
+                    };
+                    let output_path = match output_path {
+                        Ok(path) => path,
+                        Err(e) => {
+                            log::warn!("Skipping {file}: {e}");
+                            error_count += 1;
+                            pb.inc(1);
+                            continue;
+                        }
                     };
 
                     if let Some(parent) = output_path.parent() {
